@@ -2,8 +2,8 @@
 From Coq Require Import ZArith.
 Open Scope Z_scope.
 
-Definition d2d_scale_sub_native : option Z := Some 1.
-Definition factorial_null : option Z := Some 1.
-Definition gcd_native : option Z := Some 1.
-Definition lcm_native : option Z := Some 1.
-Definition shr_zero_fill : option Z := Some 1.
+Definition d2d_scale_sub_native : option Z := Some 0.
+Definition factorial_null : option Z := Some 0.
+Definition gcd_native : option Z := Some 0.
+Definition lcm_native : option Z := Some 0.
+Definition shr_zero_fill : option Z := Some 0.
